@@ -127,3 +127,8 @@ Definition tx_mismatch (c : tx_case) : bool :=
                | Rejected _ => st_conf (tc_st c)
                end in
   negb (Bool.eqb (is_accepted r) (tc_ok c)) || negb (conf_set_eqb conf' (tc_after c)).
+
+(* ---- genesis export/import cases: the confirm stores after the real ExportGenesis -> wipe -> InitGenesis ---- *)
+Record imp_case := { ic_st : cstate; ic_after : list (ckey * cmsg) }.
+Definition mk_imp_case st after : imp_case := {| ic_st := st; ic_after := after |}.
+Definition imp_mismatch (c : imp_case) : bool := negb (conf_set_eqb (import_conf (ic_st c)) (ic_after c)).
